@@ -81,6 +81,23 @@ Theorem C05_rotation_keeps_parent_geometry : forall (c s : R) (o a p : pt (A := 
   (forall q, dist2 p' (rotate_about RA c s o a q) = dist2 p q).
 Proof. exact rotation_keeps_parent_geometry. Qed.
 
+(* which template neighbours add_hydrogens / repair_heavy hand to the fit (name level, ANY bond
+   graph and presence predicate): exactly three names, each a present atom of get_nearest_bonds,
+   namely the first three present ones ... *)
+Theorem C05_fit_neighbours : forall (g : graph) (present : id -> bool) (x : id) (l : list id),
+  fit_names g present x = Some l ->
+  List.length l = 3%nat /\
+  (forall b, In b l -> In b (nearest_bonds g x) /\ present b = true) /\
+  l = firstn 3 (filter present (nearest_bonds g x)).
+Proof. exact fit_neighbours_sound. Qed.
+
+(* ... so with an absent peptide pointer (chain break, terminus) the pseudo atom N+1 / C-1 is
+   never used as a neighbour *)
+Theorem C05_fit_skips_absent_pointer : forall (g : graph) (np1 cm1 : id) (has_pn has_pc : bool) (atoms : list id) (x : id) (l : list id),
+  fit_names g (present_in np1 cm1 has_pn has_pc atoms) x = Some l ->
+  (has_pn = false -> ~ In np1 l) /\ (has_pc = false -> np1 <> cm1 -> ~ In cm1 l).
+Proof. exact fit_skips_absent_pointer. Qed.
+
 (* the hydrogen / lone pair of a water oxygen without bonds is put exactly 1 A from it
    (the WAT template's O-H length is 1.000 A: generated table below) *)
 Theorem C05_unit_placement : forall o from_ to_ : pt (A := R),
@@ -133,6 +150,8 @@ Print Assumptions C05_fit3_exact_geometry.
 Print Assumptions C05_tetra_120.
 Print Assumptions C05_tetra3_choice.
 Print Assumptions C05_rotation_keeps_parent_geometry.
+Print Assumptions C05_fit_neighbours.
+Print Assumptions C05_fit_skips_absent_pointer.
 Print Assumptions C05_unit_placement.
 Print Assumptions C05_all_atom_subtree_table.
 Print Assumptions C05_hydrogens_move_with_parents.
